@@ -82,6 +82,10 @@ func init() {
 		fr.e.sched.yieldOnly = fr.e.branch(args[0].(*Term))
 		return nil
 	})
+	reg(rt+"Preemptions", func(fr *frame, args []Value) Value {
+		fr.e.sched.preemptBudget = int(int64(fr.e.concretize(args[0].(*Term), "preemption budget")))
+		return nil
+	})
 	reg(rt+"SetUnwind", func(fr *frame, args []Value) Value {
 		fr.e.unwind = int(fr.e.concretize(args[0].(*Term), "unwind"))
 		return nil
@@ -142,6 +146,7 @@ func init() {
 	// ---- sync.Mutex (field 0 = state) ----
 	lock := func(fr *frame, args []Value) Value {
 		e := fr.e
+		e.preemptPoint(fr)
 		p := args[0].(*Value)
 		if p == nil {
 			panic(targetPanic{e.runtimeError("nil pointer dereference (Mutex.Lock)"), "sync.Mutex.Lock"})
@@ -153,6 +158,7 @@ func init() {
 	}
 	unlock := func(fr *frame, args []Value) Value {
 		e := fr.e
+		e.preemptPoint(fr)
 		st := (*args[0].(*Value)).(Struct)
 		if st[0].(*Term).k == 0 {
 			panic(pathEnd{"fatal", "sync: unlock of unlocked mutex"})
@@ -178,6 +184,7 @@ func init() {
 	}
 	reg("(*sync.RWMutex).Lock", func(fr *frame, args []Value) Value {
 		e := fr.e
+		e.preemptPoint(fr)
 		st, w := rw(args)
 		e.block(e.curG(fr), "RWMutex.Lock", func() bool { return w[0].(*Term).k == 0 && st[2].(*Term).k == 0 })
 		w[0] = e.tt.BV(32, 1)
@@ -185,6 +192,7 @@ func init() {
 	})
 	reg("(*sync.RWMutex).Unlock", func(fr *frame, args []Value) Value {
 		e := fr.e
+		e.preemptPoint(fr)
 		_, w := rw(args)
 		if w[0].(*Term).k == 0 {
 			panic(pathEnd{"fatal", "sync: Unlock of unlocked RWMutex"})
@@ -194,6 +202,7 @@ func init() {
 	})
 	reg("(*sync.RWMutex).RLock", func(fr *frame, args []Value) Value {
 		e := fr.e
+		e.preemptPoint(fr)
 		st, w := rw(args)
 		e.block(e.curG(fr), "RWMutex.RLock", func() bool { return w[0].(*Term).k == 0 })
 		st[2] = e.tt.BV(32, st[2].(*Term).k+1)
@@ -201,6 +210,7 @@ func init() {
 	})
 	reg("(*sync.RWMutex).RUnlock", func(fr *frame, args []Value) Value {
 		e := fr.e
+		e.preemptPoint(fr)
 		st, _ := rw(args)
 		if st[2].(*Term).k == 0 {
 			panic(pathEnd{"fatal", "sync: RUnlock of unlocked RWMutex"})
@@ -241,24 +251,29 @@ func init() {
 	for _, ty := range []string{"Int32", "Int64", "Uint32", "Uint64", "Uintptr"} {
 		ty := ty
 		reg("sync/atomic.Load"+ty, func(fr *frame, args []Value) Value {
+			fr.e.preemptPoint(fr)
 			return *fr.derefArg(args[0], "atomic.Load")
 		})
 		reg("sync/atomic.Store"+ty, func(fr *frame, args []Value) Value {
+			fr.e.preemptPoint(fr)
 			*fr.derefArg(args[0], "atomic.Store") = args[1]
 			return nil
 		})
 		reg("sync/atomic.Add"+ty, func(fr *frame, args []Value) Value {
+			fr.e.preemptPoint(fr)
 			p := fr.derefArg(args[0], "atomic.Add")
 			*p = fr.e.tt.Bin(OpAdd, (*p).(*Term), args[1].(*Term))
 			return *p
 		})
 		reg("sync/atomic.Swap"+ty, func(fr *frame, args []Value) Value {
+			fr.e.preemptPoint(fr)
 			p := fr.derefArg(args[0], "atomic.Swap")
 			old := *p
 			*p = args[1]
 			return old
 		})
 		reg("sync/atomic.CompareAndSwap"+ty, func(fr *frame, args []Value) Value {
+			fr.e.preemptPoint(fr)
 			e := fr.e
 			p := fr.derefArg(args[0], "atomic.CAS")
 			if e.branch(e.tt.Eq((*p).(*Term), args[1].(*Term))) {
